@@ -289,6 +289,9 @@ func (s *Sim) event(gen, client int, kind, point string) {
 func (s *Sim) recordPersist(gen int, logs []*ledger.ChainedLog) {
 	s.mu.Lock()
 	defer s.mu.Unlock()
+	if s.res == nil {
+		return // standalone store
+	}
 	ids := make([]string, len(logs))
 	for i, l := range logs {
 		ids[i] = l.ID.String()
